@@ -205,17 +205,7 @@ theorem step_leave_wait {s : St} (h : SInv s) (cfg : Cfg) (e : Ev) (hx : xj s = 
         have e1 : (step cfg s (.joinDone (.err e))).2 = (rejoinAfterError cfg { s with jpc := .idle } e).2 := by
           simp [step, hj, andThen]
         rw [e1]; exact nb_ne_bad (rejoinAfterError_nb _ _ _)
-      | ok m g l n =>
-        by_cases hs : s.stopping = true
-        · have e1 : (step cfg s (.joinDone (.ok m g l n))).2 = [] := by simp [step, hj, hs]
-          rw [e1]; simp
-        · cases l with
-          | true =>
-            have e1 : (step cfg s (.joinDone (.ok m g true n))).2 = [.loadParts] := by simp [step, hj, hs]
-            rw [e1]; simp
-          | false =>
-            have e1 : (step cfg s (.joinDone (.ok m g false n))).2 = [.sync (some g) m 0] := by simp [step, hj, hs]
-            rw [e1]; simp
+      | ok m g l n => exact joinOk_ne_bad cfg s m g l n hj
   | syncDone r =>
     by_cases hj : (s.jpc != .sync) = true
     · exfalso; revert hx'; simp only [step, hj, if_true]; intro hx'; exact same rfl hx'
@@ -362,9 +352,8 @@ theorem step_req (cfg : Cfg) (s : St) (e : Ev) :
           | false =>
             right
             refine ⟨.sync (some g) m 0, rfl, ?_, Or.inr ⟨⟨_, rfl⟩, ?_⟩⟩
-            · simp [step, h1, h2, xj]
-            · have e1 : (step cfg s (.joinDone (.ok m g false n))).2 = [.sync (some g) m 0] := by simp [step, h1, h2]
-              rw [e1]; simp
+            · simp [step, h1, h2, xj, abandonHb_eq, andThen]
+            · exact joinOk_ne_bad cfg s m g false n h1
   | partsDone r =>
     cases r with
     | err e => left; simp [expectedSig]
